@@ -334,6 +334,41 @@ static void exec_c14(const Plan& p, Outcome& out) {
           }
           A.free();
         }
+        // two mismatches of opposite sign (the earlier one decides): kernels that fold several vectors into one test
+        if (n >= 34) {
+          Rng r2(cseed ^ 0x2d2d);
+          CBuf A; A.init(base.data(), n, simmem::PL_END);
+          CBuf B; B.init(base.data(), n, simmem::PL_END);
+          for (int k = 0; k < 24; k++) {
+            memcpy(B.data, base.data(), n);
+            size_t m1 = (size_t)r2.below(n - 1), gap = 1 + (size_t)r2.below(k % 3 == 0 ? 8 : k % 3 == 1 ? 40 : 100);
+            size_t m2 = m1 + gap < n ? m1 + gap : n - 1;
+            if (k % 4 == 3 && m1 % 32 > 0) { size_t lane = m1 % 32; m2 = (m1 / 32 + 1) * 32 + (size_t)r2.below(lane); if (m2 >= n) m2 = n - 1; }   // later vector, LOWER lane
+            if (m2 == m1) continue;
+            int d1 = (k & 1) ? 1 : -1;
+            B.data[m1] = (char)((unsigned char)A.data[m1] + d1); B.data[m2] = (char)((unsigned char)A.data[m2] - d1);
+            int ref = memcmp(A.data, B.data, n);
+            for (auto& c : kCmps) {
+              out.detail = std::string(c.name) + " n=" + std::to_string(n) + " two mismatches at " + std::to_string(m1) + " and " + std::to_string(m2);
+              int cm = c.cmp(A.data, B.data, n); bool eq = c.eq(A.data, B.data, n);
+              g_cmp_cases++;
+              if (eq) violate("model", "InlinedMemcmpEq:result", "returned equal for operands with two differences");
+              if (sgn(cm) != sgn(ref)) violate("model", "InlinedMemcmp:sign", "returned " + std::to_string(cm) + " but memcmp gives " + std::to_string(ref) + " (the first of two differences decides)");
+            }
+          }
+          A.free(); B.free();
+        }
+        // empty ranges carry no address: {nullptr, 0} is the empty string
+        if (n == 0) {
+          CBuf A; A.init("x", 1, simmem::PL_END);
+          for (auto& c : kCmps) {
+            out.detail = std::string(c.name) + " n=0 with null operands";
+            g_cmp_cases++;
+            if (!c.eq(nullptr, A.data, 0) || !c.eq(A.data, nullptr, 0) || !c.eq(nullptr, nullptr, 0)) violate("model", "InlinedMemcmpEq:result", "empty ranges compare different when one of them has no address");
+            if (c.cmp(nullptr, A.data, 0) != 0 || c.cmp(A.data, nullptr, 0) != 0 || c.cmp(nullptr, nullptr, 0) != 0) violate("model", "InlinedMemcmp:sign", "empty ranges do not compare equal when one of them has no address");
+          }
+          A.free();
+        }
         h = mix64(h ^ n);
       } else if (op.kind == "MemcmpHuge") {
         // operands of 2^32 bytes and more (untouched zero pages, virtual memory only): a single differing byte
